@@ -315,10 +315,16 @@ def oracle(case):
     return True, "ok" if want is not None else "no documented value: judged by the model comparison only"
 
 
-def run(ctx):
+def run(ctx, more=None):
+    """`more(ctx) -> (lines, judge)`: further model lines of the property, drawn after this stream's cases and sent to the
+    driver in the same launch; `judge(outs)` receives their answers"""
     st = ctx.stats
     cases = corpus_cases("C02", STREAM) + list(gen_cases(ctx))
-    outs = ctx.driver.eval([model_line(c) for c in cases])
+    more_lines, judge = more(ctx) if more else ([], None)
+    outs = ctx.driver.eval([model_line(c) for c in cases] + more_lines)
+    if judge:
+        judge(outs[len(cases):])
+    outs = outs[:len(cases)]
     mism, per_op = [], {}
     for case, line in zip(cases, outs):
         st.count(f"{STREAM}:{case['op']}")
